@@ -465,7 +465,7 @@ def _p5(ctx, R):
           "policy is undone on every exit of the function, exceptional exits included, and the value restored was read before the switch; P2 "
           "(interprocedural must-consume / consumes-when-true summaries) every token-driven loop consumes a token or exits on every path back "
           "to its head, so no input can make a reader spin; P3 every resolution of a textual reference in the EDIF reader is followed by a "
-          "not-found check before the result is used (None handled by rejection, for/break searches have a rejecting else); P5 every except "
+          "not-found check before the result is used (None handled by rejection, for/break searches have a rejecting else) and a container that was resolved and checked is then actually used (the name it qualifies is not looked up in a wider scope); P5 every except "
           "handler re-raises or is one of the reviewed handlers. Decides that the readers cannot hang, cannot keep the policy switched and "
           "do not accept dangling references silently; that every corruption is detected is not decided.")
 def check_c15(ctx, R):
